@@ -136,7 +136,7 @@ class Gen(object):
         a = rng.choice(cands)
         return max(1, min(a, MAX_INT))
 
-    def consumer_req(self, v, mv, c=None, empty_ok=True, share=None):
+    def consumer_req(self, v, mv, c=None, empty_ok=True, share=None, empty_from=28):
         rng = self.rng
         c = c or rng.choice(CONSUMERS)
         cur = v.consumers.get(c)
@@ -148,7 +148,7 @@ class Gen(object):
         else:
             gen = cur['gen'] if r < 0.85 else rng.choice([None, cur['gen'] + 1, max(cur['gen'] - 1, 0)])
         allocs = []
-        if not (empty_ok and mv >= 28 and rng.random() < 0.15):
+        if not (empty_ok and mv >= empty_from and rng.random() < 0.15):
             n = rng.choice([1, 1, 2, 2, 3])
             keys = list(v.invs)
             # one request placing the SAME class on several providers (per-(provider, class) bookkeeping of the capacity
@@ -342,7 +342,8 @@ class Gen(object):
         cs = rng.sample(CONSUMERS, rng.choice([1, 2, 2, 3]))
         # half of the multi-consumer requests are built to succeed as a whole (amounts share the remaining room)
         share = len(cs) if rng.random() < 0.5 else None
-        return {'op': 'alloc_post', 'mv': mv, 'cs': [self.consumer_req(v, mv, c, share=share) for c in cs]}
+        # (an entry of POST /allocations may be empty from 1.13 on, one of PUT only from 1.28)
+        return {'op': 'alloc_post', 'mv': mv, 'cs': [self.consumer_req(v, mv, c, share=share, empty_from=13) for c in cs]}
 
     def g_alloc_delete(self, v):
         rng = self.rng
